@@ -223,6 +223,21 @@ func (g *gen) fingerprint(n int) {
 			g.emit("RAWDEC 1 0 0 %s", showHex(c))
 			g.emit("CHECK 1 fp")
 		}
+		// library: every body length 0, 4, 8, … gets fingerprinted over the run (a carry from the low into the high byte
+		// of the header length happens at 248/252 mod 256), with and without MESSAGE-INTEGRITY in front
+		for _, bodyLen := range []int{12 * i, 12*i + 4, 12*i + 8} {
+			g.emit("NEW 2 %d %d", g.r.intn(3)*700, g.r.intn(256))
+			sw := fmt.Sprintf("type:%d:%d+tid:%s", g.r.intn(4096), g.r.intn(4), showHex(g.r.bytes(12)))
+			if bodyLen >= 4 {
+				sw += fmt.Sprintf("+raw:%d:%s", 0x7777, showHex(g.r.bytes(bodyLen-4)))
+			}
+			g.emit("BUILD 2 %s", sw)
+			if g.r.chance(1, 2) {
+				g.emit("SET 2 mi:%s", showHex(g.r.bytes(g.r.intn(40))))
+			}
+			g.emit("SET 2 fp")
+			g.emit("CHECK 2 fp")
+		}
 		// library: add FINGERPRINT on top of arbitrary content (with and without MESSAGE-INTEGRITY before)
 		tot := 0
 		g.emit("NEW 2 %d %d", g.r.intn(600), g.r.intn(256))
